@@ -605,6 +605,65 @@ def run(ctx: fw.Ctx):
     observe(ctx, program_stream(ctx), correspond=True)
     target_through_identifier(ctx)
     resolution_after_edits(ctx)
+    moved_references(ctx)
+
+
+def moved_references(ctx: fw.Ctx):
+    """A reference taken out of one document and assigned into another resolves in its NEW place (or fails
+    explicitly there): nothing of the scope chain of the document it came from may stick to it. And a
+    `set` through a reference leaves the edited attribute resolving to the new value."""
+    from nix_manipulator import parse
+    from nix_manipulator.cli import manipulations as M
+
+    def val(src, key):
+        try:
+            v = src[key]
+            v = v.value if type(v).__name__ == "Identifier" else v
+            return v.rebuild() if hasattr(v, "rebuild") else repr(v)
+        except Exception as exc:  # noqa: BLE001
+            return "raises:" + ("ResolutionError" if "Resolution" in type(exc).__name__ else type(exc).__name__)
+
+    origins = ["let\n  v = \"1.0\";\nin\n{\n  version = v;\n}\n", "rec {\n  v = \"1.0\";\n  version = v;\n}\n"]
+    dests = ["{\n  version = \"0.1\";\n  other = 2;\n}\n", "{\n  other = 2;\n}\n", "let\n  v = \"9\";\nin\n{\n  version = \"0.1\";\n}\n",
+             "rec {\n  v = \"8\";\n  version = \"0.1\";\n}\n"]
+    for o in origins:
+        for dtext in dests:
+            for key in ("version", "fresh"):
+                origin = parse(o)
+                ref = origin["version"]
+                try:
+                    ref.value  # resolve once in the old place
+                except Exception:  # noqa: BLE001
+                    pass
+                dest = parse(dtext)
+                try:
+                    dest[key] = ref
+                except Exception:  # noqa: BLE001
+                    continue
+                live = val(dest, key)
+                fresh = val(parse(dest.rebuild()), key)
+                ctx.case({"origin": o, "dest": dtext, "key": key, "moved-reference": True}, True)
+                if live != fresh:
+                    ctx.fail({"clause": "moved-reference", "existing_key": key == "version"},
+                             {"origin": o, "doc": dtext, "key": key, "live": live, "fresh": fresh, "text_now": dest.rebuild()},
+                             f"a reference taken from {o!r} and assigned to {key!r} of {dtext!r} resolves to {live!r}; the "
+                             f"resulting text {dest.rebuild()!r} resolves it to {fresh!r}")
+    # set through a reference: afterwards the attribute resolves to the value that was set
+    for text in ["let\n  v = \"1.0\";\nin\nlet\n  v = \"2.0\";\nin\n{\n  version = v;\n}\n",
+                 "let\n  v = \"1.0\";\nin\nrec {\n  v = \"2.0\";\n  version = v;\n}\n",
+                 "let\n  v = \"1.0\";\nin\n{\n  version = v;\n}\n",
+                 "let\n  v = \"1.0\";\nin\nlet\n  w = v;\nin\nlet\n  v = \"3.0\";\nin\n{\n  meta = {\n    version = w;\n  };\n  version = v;\n}\n"]:
+        src = parse(text)
+        try:
+            out = M.set_value(src, "version", '"9.9"')
+        except Exception:  # noqa: BLE001
+            continue
+        got_live, got_fresh = val(src, "version"), val(parse(out), "version")
+        ctx.case({"doc": text, "set-through-reference": True}, True)
+        if got_live != '"9.9"' or got_fresh != '"9.9"':
+            ctx.fail({"clause": "set-through-reference-resolves"}, {"doc": text, "ops": [["set", "version", '"9.9"']], "output": out,
+                                                                     "live": got_live, "fresh": got_fresh},
+                     f"after set version \"9.9\" on {text!r} the attribute resolves to {got_live!r} (fresh parse: {got_fresh!r}): {out!r}")
 
 
 def resolution_after_edits(ctx: fw.Ctx):
